@@ -204,9 +204,9 @@ static int muggle_log_file_time_rot_handler_write(
 
 	if (handler->fp)
 	{
-		ret = (int)fwrite(buf, 1, ret, handler->fp);
-		fflush(handler->fp);
-
+		// switch to the file of the period that contains this message's
+		// timestamp before writing it, so that the first message of a period
+		// does not end up in the file of the previous period
 		if (muggle_log_file_time_rot_handler_detect(handler, msg))
 		{
 			if (muggle_log_file_time_rot_handler_rotate(handler) != 0)
@@ -214,6 +214,12 @@ static int muggle_log_file_time_rot_handler_write(
 				fprintf(stderr, "failed rotate log handler\n");
 			}
 		}
+	}
+
+	if (handler->fp)
+	{
+		ret = (int)fwrite(buf, 1, ret, handler->fp);
+		fflush(handler->fp);
 	}
 
 	if (base_handler->need_mutex)
